@@ -49,12 +49,11 @@ SIMPLE = {
     "TypeAlias": dict(construct=False),
     "ClassDef": dict(construct=False),
     "TypeInfo": dict(construct=False, extra_overrides=json_pair_overrides),
+    "MypyFile": dict(construct=False, read_skips_tag=False),
 }
 
 UNVERIFIED = {
-    "MypyFile": "not attempted: delegates to SymbolTable.write with a prefix and lazy symbol bytes",
-    "SymbolTable": "not attempted: writes only symbols that are not module-public cross references; read() keeps lazy bytes",
-    "SymbolTableNode": "not attempted: cross-reference decision (fullname != prefix + '.' + name) and lazy node bytes",
+    "SymbolTable": "write(): two per-iteration contracts (contracts/symtab.py), not a lock-step round trip: the filtered, sorted write has no lock-step rule; read() is not under contract",
     "FileRawData": "not attempted (parser cache, not part of the module interface)",
 }
 
@@ -70,6 +69,13 @@ VIEWS = {
     "TypeInfo": {"_mro_refs": mro_names, "_fullname": lambda I, o: I.getattr(o, "fullname")},
 }
 TRANSIENT = {
+    "MypyFile": {
+        "defs": "the AST is not cached: a loaded module is a cache skeleton (names only)", "imports": "same (dependencies travel in CacheMeta)",
+        "alias_deps": "fine-grained dependency data, stored in the separate deps cache", "plugin_deps": "same",
+        "ignored_lines": "per-parse table, only needed while the module is checked", "skipped_lines": "same", "is_bom": "parser detail",
+        "module_refs": "filled during analysis of the module itself", "raw_data": "parser cache", "uses_template_strings": "parser detail",
+        "_is_typeshed_file": "memo", "is_cache_skeleton": "set to True by read(): marks the object as loaded from the cache",
+    },
     "TypeInfo": {
         "mro": "re-linked by fixup from _mro_refs (the names of the written mro: view slot _mro_refs)",
         "assuming": "subtype-check recursion stack (analysis-local)", "assuming_proper": "same", "inferring": "inference recursion stack (analysis-local)",
@@ -143,6 +149,159 @@ def classes():
     return [getattr(N, n) for n in SIMPLE]
 
 
+# ------------------------------------------------------------------ SymbolTableNode
+
+SYMBOL_NODE_CLASSES = [N.MypyFile, N.TypeInfo, N.FuncDef, N.OverloadedFuncDef, N.Decorator, N.Var, N.TypeAlias, N.TypeVarExpr, N.ParamSpecExpr, N.TypeVarTupleExpr]
+
+
+def stn_cross_ref(I, o):
+    """the cross reference the writer emits: a module is always referenced; any other node is referenced
+    iff its full name is dotted and is not `prefix.name` (it lives elsewhere), except module-level
+    __getattr__ results"""
+    g = I.ctx.ghost
+    node = I.getattr(o, "node_written") if False else o.fields.get("_node")
+    env = g["stn_env"]
+    prefix, name = env["prefix"], env["name"]
+    if isinstance(node, SObj) and node.cands and issubclass(node.cands[0], N.MypyFile):
+        return I.getattr(node, "fullname")
+    fn = I.getattr(node, "fullname")
+    dotted = z3.Contains(fn.t, z3.StringVal("."))
+    elsewhere = fn.t != z3.Concat(prefix.t, z3.StringVal("."), name.t)
+    getattr_var = z3.BoolVal(False)
+    if isinstance(node, SObj) and node.cands and issubclass(node.cands[0], N.Var):
+        getattr_var = I.getattr(node, "from_module_getattr").t
+    is_ref = z3.And(dotted, elsewhere, z3.Not(getattr_var))
+    return SOpt(z3.Not(is_ref), fn)
+
+
+def stn_node(I, o):
+    """eagerly decoded only for a TypeInfo defined here; otherwise left to the lazy decoder / fixup"""
+    node = o.fields.get("_node")
+    cr = stn_cross_ref(I, o)
+    if isinstance(node, SObj) and node.cands and issubclass(node.cands[0], N.TypeInfo) and not issubclass(node.cands[0], N.MypyFile):
+        if isinstance(cr, SOpt) and I.ctx.implied(cr.isnone):
+            return node
+    return NONE
+
+
+def _stn_case(I, o):
+    """('ref' | 'typeinfo' | 'lazy', node) -- which of the reader's three cases this path is in"""
+    node = o.fields.get("_node")
+    cr = stn_cross_ref(I, o)
+    if isinstance(cr, SStr):
+        return "ref", node
+    if I.ctx.implied(z3.Not(cr.isnone)):
+        return "ref", node
+    if not I.ctx.implied(cr.isnone):
+        return "undetermined", node
+    if node.cands and issubclass(node.cands[0], N.TypeInfo):
+        return "typeinfo", node
+    return "lazy", node
+
+
+def stn_node_view(I, o):
+    case, node = _stn_case(I, o)
+    return node if case == "typeinfo" else NONE if case in ("ref", "lazy") else SStr("undetermined")
+
+
+def stn_bytes_view(I, o):
+    from pyvc.codec import SBytesOf
+
+    case, node = _stn_case(I, o)
+    if case == "lazy":
+        cache = I.ctx.ghost.setdefault("bytes_of", {})
+        if id(node) not in cache:
+            cache[id(node)] = SBytesOf(node)
+        return cache[id(node)]
+    return SBytes(z3.Empty(BytesS)) if case in ("ref", "typeinfo") else SStr("undetermined")
+
+
+def stn_tag_view(I, o):
+    from pyvc.codec import class_tag
+
+    case, node = _stn_case(I, o)
+    if case == "lazy":
+        return SInt(int(class_tag(node.cands[0])))
+    return SInt(0) if case in ("ref", "typeinfo") else SStr("undetermined")
+
+
+def stn_requires(I, env):
+    o = env["self"]
+    node = I.make(TObj(N.SymbolNode), "node")
+    # class invariant: a serialized symbol refers to a concrete, complete node (never a PlaceholderNode)
+    node.cands = list(SYMBOL_NODE_CLASSES)
+    o.fields["_node"] = node
+    o.fields["unfixed"] = SBool(False)  # a symbol being written has been fixed up: .node is ._node
+    o.fields["cross_ref"] = NONE
+    I.ctx.ghost["stn_env"] = env
+
+
+def stn_write_args(I, env):
+    env["prefix"], env["name"] = I.make(TStr(), "prefix"), I.make(TStr(), "name")
+    return [env["prefix"], env["name"]]
+
+
+def stn_targets():
+    ft = dict(FT)
+    ft.update({("SymbolTableNode", "kind"): TInt(), ("SymbolTableNode", "module_hidden"): TBool(), ("SymbolTableNode", "module_public"): TBool(),
+               ("SymbolTableNode", "implicit"): TBool(), ("SymbolTableNode", "plugin_generated"): TBool(), ("SymbolTableNode", "no_serialize"): TBool(),
+               ("MypyFile", "_fullname"): TStr(), ("TypeInfo", "_fullname"): TStr(), ("Decorator", "func"): TObj(N.FuncDef), ("Var", "from_module_getattr"): TBool(),
+               ("TypeVarExpr", "_fullname"): TStr(), ("ParamSpecExpr", "_fullname"): TStr(), ("TypeVarTupleExpr", "_fullname"): TStr(),
+               ("TypeVarLikeExpr", "_fullname"): TStr()})
+    ty = TObj(N.SymbolNode)
+    view = {
+        "cross_ref": stn_cross_ref,
+        "_node": stn_node_view,        # the node itself for a TypeInfo defined here, else None
+        "_node_bytes": stn_bytes_view,  # else the extracted bytes of the node's body (decoded lazily by .node)
+        "_node_tag": stn_tag_view,      # ... with the node's class tag
+    }
+    tr = {
+        "unfixed": "set by read(): the node still needs fixup", "stored_info": "fixup-local", "no_serialize": "symbols with no_serialize are skipped by SymbolTable.write",
+    }
+    return [CodecTarget("codec.nodes.SymbolTableNode", N.SymbolTableNode, view=view, transient=tr, field_types=ft, nested_readers=NESTED_READERS,
+                        requires=stn_requires, write_args=stn_write_args, read_skips_tag=False,
+                        note="the node is a nested object (modular); extract_symbol / ReadBuffer are trusted librt.internal primitives")]
+
+
+class _FakeNodeFixer:
+    """stands for modules_state.node_fixer while the lazy decoder is verified"""
+
+
+def setup_lazy_node(I):
+    from pyvc.codec import Codec, SBytesOf, class_tag
+    import mypy.modules_state as MST
+
+    MST.modules_state.node_fixer = _FakeNodeFixer()  # the checker process is forked per target
+    I.codec = Codec(I, nested_readers=NESTED_READERS)
+    I.codec.root_read_started = True  # every read here is a nested one
+    sym = I.make(TObj(N.SymbolTableNode), "sym")
+    node = I.make(TObj(N.SymbolNode), "node")
+    node.cands = [k for k in SYMBOL_NODE_CLASSES if k not in (N.TypeInfo, N.MypyFile)]
+    i = I.ctx.choose(len(node.cands), "node-class")
+    node.cands = [node.cands[i]]
+    sym.fields.update({"unfixed": SBool(True), "cross_ref": NONE, "_node": NONE, "_node_bytes": SBytesOf(node), "_node_tag": SInt(int(class_tag(node.cands[0]))),
+                       "stored_info": NONE})
+    return {"args": [sym], "sym": sym, "node": node}
+
+
+def ens_lazy_node(I, env, res):
+    """the lazy decoder returns the node whose extracted bytes the reader kept, and marks the symbol fixed"""
+    sym = env["sym"]
+    unf = sym.fields.get("unfixed")
+    return z3.And(z3.BoolVal(res is env["node"]), z3.BoolVal(sym.fields.get("_node") is env["node"]), z3.Not(unf.t) if isinstance(unf, SBool) else z3.BoolVal(False))
+
+
+def lazy_node_targets():
+    from pyvc.codec import prim_overrides
+    from pyvc.target import Target
+
+    ov = prim_overrides()
+    for k in SYMBOL_NODE_CLASSES:
+        ov[f"mypy.nodes:{k.__name__}.accept"] = noop
+    return [Target("codec.nodes.SymbolTableNode.lazy_node", "mypy.nodes:SymbolTableNode.node", setup_lazy_node, ensures=[("decodes-the-extracted-node", ens_lazy_node)],
+                   raises=(), overrides=ov, field_types=FT, note="SymbolTableNode.node for a symbol read with lazy bytes; node.accept(node_fixer) (fixup) is a no-op contract")]
+
+
 def targets(tier):
     ts = []
     for cls in classes():
@@ -154,5 +313,6 @@ def targets(tier):
             tr.pop(k, None)  # a slot with a pinned view is compared, never transient
         ts.append(CodecTarget(f"codec.nodes.{cls.__name__}", cls, view=VIEWS.get(cls.__name__), transient=tr, field_types=FT,
                               nested_readers=NESTED_READERS, construct=opts.get("construct", False), requires=opts.get("requires"),
-                              extra_overrides=opts["extra_overrides"]() if opts.get("extra_overrides") else None))
-    return ts
+                              extra_overrides=opts["extra_overrides"]() if opts.get("extra_overrides") else None,
+                              read_skips_tag=opts.get("read_skips_tag", True)))
+    return ts + stn_targets() + lazy_node_targets()
